@@ -127,6 +127,18 @@ PragmaBase == { <<[PlainGet(11) EXCEPT !.m = m], u>> : m \in {"GET", "HEAD"}, u 
 GenSeqs == RandomSubset(SeqSample, [1..MaxEx -> Exch]) \cup { [i \in 1..1 |-> e] : e \in StreamBase \cup PragmaBase }
 \* an exchange happens only if every earlier one left the connection open
 Expected(s) == [i \in 1..Len(s) |-> Wire(s[i][1], s[i][2], FALSE)]
+\* A response after which the proxy closes the client's connection (Wire(...).close: the origin said close, delimited the body
+\* by closing, or is an HTTP/1.0 origin) is the last thing on that connection, and it is delivered whole - "the same body bytes" -
+\* whatever else the client, which takes the connection for persistent, has sent meanwhile: nothing, its next request together
+\* with the first, its next request while the answer is under way. (A close that finds unread bytes makes the kernel reset the
+\* connection and drop what has not been delivered: the harness uses a body of 16 MiB read at a moderate pace.)
+LastCases == [up : {"close-cl", "eof11", "eof10"}, next : {"none", "pipelined", "during"}]
+LastClose(c) == Wire(PlainGet(11), [st |-> 200, fr |-> IF c.up = "close-cl" THEN "cl" ELSE "eof", tr |-> FALSE, gz |-> FALSE, sse |-> FALSE, sz |-> 3,
+                                    hop |-> FALSE, cookies |-> FALSE, ver |-> IF c.up = "eof10" THEN 10 ELSE 11, pragma |-> FALSE,
+                                    early |-> FALSE, ev |-> "lf"], c.up = "close-cl").close
+ASSUME \A c \in LastCases : LastClose(c)
+ASSUME PrintT(ToJson([lastCases |-> LastCases]))
+
 GInit == /\ \E s \in GenSeqs :
               wire = [i \in 1..Len(s) |-> [req |-> s[i][1], up |-> s[i][2], exp |-> Wire(s[i][1], s[i][2], FALSE),
                                            undone |-> Undone(s[i][1], s[i][2]), headerOnly |-> HeaderOnly(s[i][1], s[i][2])]]
